@@ -1,0 +1,16 @@
+//go:build verif
+
+package abci
+
+import (
+	nodedb "github.com/oasisprotocol/oasis-core/go/storage/mkvs/db/api"
+)
+
+// Export for the verification harness (/verif, property C06). Add-only, compiled only with
+// the `verif` build tag.
+
+// NewVerifStatePruner constructs the real keep-N state pruner (genericPruner) over the given
+// node database, exactly as newStatePruner does for the consensus state.
+func NewVerifStatePruner(ndb nodedb.NodeDB, numKept uint64) (StatePruner, error) {
+	return newStatePruner(&PruneConfig{Strategy: PruneKeepN, NumKept: numKept}, ndb)
+}
